@@ -303,31 +303,48 @@ def run(res, tier):
                        'inline buffer and writes 10 items into it (buffer overflow past the Queue object)')
     if n_cf < 1:
         raise AnalysisBroken('COPY-FITS: the copy loop of EnsureSizeAux was not found')
-    res.rule('ALIAS-GUARD', 'a Queue method that shifts existing items in place (ReplaceItemAt(i, GetItemAtUnchecked(i+-1)) in a loop) and then stores its by-reference item parameter evaluates '
-                            'IsItemLocatedInThisContainer(item) on every path before the shift (not only when a reallocation is due)', floor=1)
+    res.rule('ALIAS-GUARD', 'a Queue method that shifts existing items in place (a loop that stores one item of *this into another slot of *this) and also stores items read through a parameter '
+                            '(by-reference item, pointer to items, const Queue &) rules out, on every path before the shift, that the parameter refers to the items being shifted: '
+                            'IsItemLocatedInThisContainer(parameter) evaluated unconditionally, resp. `&parameter == this` tested and found false', floor=3)
     n_ag = 0
     for f in sorted(funcs, key=lambda f: f.line):
-        shifts = []
-        for c in f.walk():
-            if c['k'] == 'CXXMemberCallExpr' and (c.get('q') or '').endswith('::ReplaceItemAt') and any(a['k'] in ('ForStmt', 'WhileStmt') for a in c.ancestors()) \
-                    and any(x.is_call() and (x.get('q') or '').endswith('::GetItemAtUnchecked') for x in c.walk()):
-                shifts.append(c)
-        if not shifts or not f.params:
+        if not f.params:
             continue
-        # the by-reference *item* parameter: it is handed to ReplaceItemAt/AddTail/AddHead somewhere in the method
-        refp = [p_ for p_ in f.params if f.ptype(p_).rstrip().endswith('&')
-                and any(c.is_call() and (c.get('q') or '').split('::')[-1] in ('ReplaceItemAt', 'AddTail', 'AddHead') and any(x['k'] == 'DeclRefExpr' and x.get('d') == p_['d'] for x in c.walk()) for c in f.walk())]
-        if not refp:
+        shifts = [st_ for (st_, dst, src) in item_stores(f) if dst == 'this' and any(a['k'] in ('ForStmt', 'WhileStmt', 'DoStmt') for a in st_.ancestors())
+                  and any(item_of_this(x) for x in src.walk())]
+        if not shifts:
             continue
-        n_ag += 1
-        chk = [c for c in f.walk() if c.is_call() and (c.get('q') or '').endswith('::IsItemLocatedInThisContainer') and any(x['k'] == 'DeclRefExpr' and x.get('d') == refp[-1]['d'] for x in c.walk())]
-        ok = bool(chk) and all(P.must_precede(f, chk, sft) for sft in shifts)
-        res.ob('ALIAS-GUARD', f.where(), '%s evaluates IsItemLocatedInThisContainer(%s) on every path before shifting items' % (f.q.split('::')[-1], refp[-1].get('n')), ok, function=f.q,
-               key='ALIAS-GUARD|%s' % (f.q.split('<')[0] + '::' + f.q.split('::')[-1]),
-               message='%s can shift items in place without having tested whether `%s` refers to one of them: q.InsertItemAt(j, q[k]) then stores the neighbour of q[k] (the reference names a different '
-                       'element after the shift) and still reports success' % (f.q, refp[-1].get('n')))
-    if n_ag < 1:
-        raise AnalysisBroken('ALIAS-GUARD: no in-place shifting method found')
+        for p_ in f.params:
+            pt = f.ptype(p_).strip()
+            kind = 'queue' if re.search(r'^const (muscle::)?Queue<.*> ?&$', pt) else 'ptr' if pt.endswith('*') and 'const' in pt else 'ref' if pt.endswith('&') else None
+            if kind is None or p_.get('d') is None:
+                continue
+            # the parameter is a source of items stored into *this (directly or through AddTail/AddHead/ReplaceItemAt on *this)
+            feeds = [st_ for (st_, dst, src) in item_stores(f, calls=True) if any(x['k'] == 'DeclRefExpr' and x.get('d') == p_['d'] for x in src.walk())]
+            if not feeds:
+                continue
+            n_ag += 1
+            if kind == 'queue':
+                ok = True
+                npaths = 0
+                for sft in shifts:
+                    paths, complete = C.paths_between(f, (f.entry, -1), P.pos_of(f, sft))
+                    ok = ok and complete and bool(paths)
+                    npaths += len(paths)
+                    for asg in paths:
+                        ok = ok and any(op_ == '!=' and l_['k'] == 'CXXThisExpr' and r_['k'] == 'UnaryOperator' and r_.get('op') == '&' and A.strip_casts(r_['ch'][0]).get('d') == p_['d']
+                                        for (cid, truth) in asg.items() for (l_, op_, r_) in A.rel_forms(f.nodes[cid], truth))
+                how = '%d path(s) to the shift, each with &%s != this' % (npaths, p_.get('n'))
+            else:
+                chk = [c for c in f.walk() if c.is_call() and (c.get('q') or '').endswith('::IsItemLocatedInThisContainer') and any(x['k'] == 'DeclRefExpr' and x.get('d') == p_['d'] for x in c.walk())]
+                ok = bool(chk) and all(P.must_precede(f, chk, sft) for sft in shifts)
+                how = 'IsItemLocatedInThisContainer at line(s) %s' % [c.get('l') for c in chk]
+            res.ob('ALIAS-GUARD', f.where(shifts[0]), '%s rules out that `%s` refers to its own items on every path before it shifts them' % (f.q.split('::')[-1], p_.get('n')), ok, function=f.q, how=how,
+                   key='ALIAS-GUARD|%s|%s' % (f.q.split('<')[0], p_.get('n')),
+                   message='%s can shift its items in place without having ruled out that `%s` refers to some of them: q.InsertItemAt(j, q[k]) / q.InsertItemsAt(j, &q[k], n) then stores items that the '
+                           'shift has already overwritten (or, after a reallocation, items that were moved out of the old array) and still reports success' % (f.q, p_.get('n')))
+    if n_ag < 3:
+        raise AnalysisBroken('ALIAS-GUARD: only %d (method, parameter) pairs with an in-place shift found' % n_ag)
     # ---- QUEUE-SELF: q.Op(q).  A method that reads its `const Queue &` argument by logical index while it moves the items of *this cannot be run on itself: after the first
     # AddHead()/InsertItemAt()/Remove*() the same index names a different item.  The methods divert `&queue == this` to a temporary copy; that diversion must not depend on anything else.
     SHIFTERS = ('AddHead', 'AddHeadAndGet', 'InsertItemAt', 'RemoveHead', 'RemoveHeadMulti', 'RemoveItemAt', 'RemoveItemsAt', 'ReverseItemOrdering', 'Sort', 'Normalize')
@@ -437,6 +454,40 @@ def run(res, tier):
                        'where EnsureSizeAux raises _itemCount over unassigned slots are preceded by default-store loops. Equivalence with an ideal deque is not decided.')
     res.assumptions = ['new[] value-initialises non-trivial item types through their default constructor']
     res.not_decided = ['all other Queue operations (index translation, insert/remove semantics, sorting, rotation, copy/move)', 'refinement of an ideal sequence over operation histories']
+
+
+def item_of_this(x):
+    """x reads or names an item slot of *this: (*this)[i], _queue[i], GetItemAtUnchecked(i) / GetItemAt / operator[] called on this"""
+    x = A.strip_casts(x)
+    if x['k'] == 'CXXOperatorCallExpr' and (x.get('q') or '').endswith('Queue::operator[]') and len(x['ch']) > 1:
+        o = A.strip_casts(x['ch'][1])
+        return o['k'] == 'CXXThisExpr' or (o['k'] == 'UnaryOperator' and o.get('op') == '*' and A.strip_casts(o['ch'][0])['k'] == 'CXXThisExpr')
+    if x['k'] == 'CXXMemberCallExpr' and re.search(r'Queue::(GetItemAtUnchecked|GetItemAt|operator\[\]|Head|Tail)$', x.get('q') or ''):
+        rc = x.receiver()
+        return rc is None or A.strip_casts(rc)['k'] == 'CXXThisExpr'
+    if x['k'] == 'ArraySubscriptExpr':
+        b = A.strip_casts(x['ch'][0])
+        return b['k'] == 'MemberExpr' and b.get('n') in ('_queue', '_smallQueue') and A.is_this_member(b)
+    return False
+
+
+def item_stores(f, calls=False):
+    """[(statement, 'this'|'other', source expression)] for stores into item slots: `slot = src`, ReplaceItemAt(i, src) on *this; with calls=True also AddTail/AddHead/…(src) on *this"""
+    out = []
+    for n in f.walk():
+        if n['k'] == 'BinaryOperator' and n.get('op') == '=':
+            if item_of_this(n['ch'][0]):
+                out.append((n, 'this', n['ch'][1]))
+        elif n['k'] == 'CXXOperatorCallExpr' and (n.get('q') or '').endswith('::operator=') and len(n['ch']) >= 3:
+            if item_of_this(n['ch'][1]):
+                out.append((n, 'this', n['ch'][2]))
+        elif n['k'] == 'CXXMemberCallExpr' and (n.receiver() is None or A.strip_casts(n.receiver())['k'] == 'CXXThisExpr'):
+            m = (n.get('q') or '').split('::')[-1]
+            if m == 'ReplaceItemAt' and len(n.args()) == 2:
+                out.append((n, 'this', n.args()[1]))
+            elif calls and m in ('AddTail', 'AddHead', 'AddTailAndGet', 'AddHeadAndGet') and len(n.args()) == 1:
+                out.append((n, 'this', n.args()[0]))
+    return out
 
 
 def not_small_edges(f):
